@@ -158,6 +158,22 @@ def run(ctx):
             oo = core.outcome(lambda: str(fn(key)))
             ev.append({"op": "deduce", "has_export": table == "pe", "stamp": key if table == "pe" else -1, "maxidx": key if table == "enum" else -1,
                        "r": oo[0] if oo[0] == "ok" else oo[1], "text": [ord(c) for c in oo[1]] if oo[0] == "ok" else []})
+    # state carried between look-ups: an index looked up first, then an export stamp of the same numeric value, and vice versa
+    def dev(table, keyv):
+        fn = version.BeaconVersion.from_pe_export_stamp if table == "pe" else version.BeaconVersion.from_max_setting_enum
+        oo = core.outcome(lambda: str(fn(keyv)))
+        ev.append({"op": "deduce", "has_export": table == "pe", "stamp": keyv if table == "pe" else -1, "maxidx": keyv if table == "enum" else -1,
+                   "r": oo[0] if oo[0] == "ok" else oo[1], "text": [ord(c) for c in oo[1]] if oo[0] == "ok" else []})
+
+    for kx in enum_keys + [1, 19, 21, 100]:
+        dev("enum", kx)
+        dev("pe", kx)
+    for kx in [k + 2 for k in pe_keys[:5]] + [33, 34, 57]:
+        dev("pe", kx)
+        dev("enum", kx)
+    for kx in pe_keys[:8]:
+        dev("enum", kx)
+        dev("pe", kx)
     bad = core.tlc_judge(ctx, "PEImageIO", "", ev, env={"TIER": ctx.tier, "TABLES": str(tf)})
     for i, failed in bad:
         e = dict(ev[i])
